@@ -117,19 +117,18 @@ theorem succ_next {it : Items} {k i : Nat} {v : Chunk} (h : lookup it ⟨k, i + 
 
 /-- The block WITHOUT the fallback (`writer.Write` in update mode; the reader before fix 7fc80460):
 `locate` finds exactly the stored chunks and does not change the collection, WHEREVER the shared
-cursor rests — given that something is selected (as after any successful `Find`) or the entry's key
-is not the zero value (with nothing selected `GetCurrentKey` answers the zero key, which the fast
-path takes for chunk 0 of entry 0) -/
-theorem locate_spec (t : Tree) (sdk : SKey) (hc : t.cur.isSome ∨ sdk.key ≠ 0) :
+cursor rests — given that something is selected (as after any successful `Find`) or the wanted chunk is
+not chunk 1 of the entry under the zero key (with nothing selected `GetCurrentKey` answers the zero key
+(0,0), which this block takes for "the cursor is on chunk 0 of entry 0") -/
+theorem locate_spec (t : Tree) (sdk : SKey) (hc : t.cur.isSome ∨ sdk ≠ ⟨0, 1⟩) :
     (locate t sdk).1.items = t.items ∧
     (∀ v, lookup t.items sdk = some v → (locate t sdk).2 = true ∧ (locate t sdk).1.cur = some sdk) ∧
     (lookup t.items sdk = none → (locate t sdk).2 = false) := by
   obtain ⟨items, cur⟩ := t
   cases cur with
   | none =>
-    have hk : sdk.key ≠ 0 := by simpa using hc
-    have hck : ¬ (⟨0, 0 + 1⟩ : SKey) = sdk := by
-      intro h; apply hk; rw [← h]
+    have hne : sdk ≠ ⟨0, 1⟩ := by simpa using hc
+    have hck : ¬ (⟨0, 0 + 1⟩ : SKey) = sdk := fun h => hne h.symm
     cases hl : lookup items sdk with
     | some v => simp [locate, Tree.currentKey, hck, Tree.find, hl]
     | none => simp [locate, Tree.currentKey, hck, Tree.find, hl]
@@ -691,14 +690,12 @@ theorem C31_add_then_read_all (t : Tree) (k : Nat) (v : Chunk) (vs : List Chunk)
   obtain ⟨a, _, c⟩ := C31_read_all { (writeAll t ⟨k, 0, true⟩ (v :: vs)).1 with cur := some ⟨k, 0⟩ } k 0 (v :: vs) bufs h2 hpos
   exact ⟨a, c⟩
 
-/-! ## update (statement only) -/
+/-! ## update -/
 
 /-- entry `k` consists of exactly the chunks `cs` -/
 def Entry (it : Items) (k : Nat) (cs : List Chunk) : Prop := ∀ i, lookup it ⟨k, i⟩ = cs[i]?
 
-/-- `C31_update_replaces` as stated in DESIGN.md. NOT proved in this file: it is covered by the
-correspondence run (the model's `opUpdate` is diffed against the real `Update`/`Encode`/`Close`, with a
-dump of the remaining chunk keys after every update) and by the direct oracle `C31/leftover-chunk`. -/
+/-- `C31_update_replaces` as stated in DESIGN.md; proved below (`C31_update_replaces`). -/
 def Statement_C31_update_replaces : Prop :=
   ∀ (t : Tree) (k : Nat) (old vals : List Chunk), old ≠ [] → Entry t.items k old →
     (opUpdate t k vals).2 = .ok ∧ Entry (opUpdate t k vals).1.items k vals ∧
@@ -709,6 +706,293 @@ neighbouring entries -/
 theorem C31_update_sample :
     let t : Tree := ⟨[(⟨1, 0⟩, [9]), (⟨2, 0⟩, [1]), (⟨2, 1⟩, [2]), (⟨2, 2⟩, [3]), (⟨3, 0⟩, [8])], none⟩
     (opUpdate t 2 [[7, 7]]).1.items = [(⟨1, 0⟩, [9]), (⟨2, 0⟩, [7, 7]), (⟨3, 0⟩, [8])] ∧ (opUpdate t 2 [[7, 7]]).2 = .ok := by
+  decide
+
+theorem lookup_setVal_ne (it : Items) {k k' : SKey} (v : Chunk) (h : k' ≠ k) :
+    lookup (setVal it k v) k' = lookup it k' := by
+  induction it with
+  | nil => rfl
+  | cons e rest ih =>
+    unfold setVal
+    by_cases he : e.1 = k
+    · have h1 : ¬ k = k' := fun x => h x.symm
+      have h2 : ¬ e.1 = k' := by rw [he]; exact h1
+      simp only [he, ↓reduceIte]
+      unfold lookup
+      simp only [h1, h2, ↓reduceIte]
+      exact ih
+    · simp only [he, ↓reduceIte]
+      unfold lookup
+      by_cases he' : e.1 = k'
+      · simp [he']
+      · simp only [he', ↓reduceIte]; exact ih
+
+theorem lookup_setVal_self (it : Items) {k : SKey} {v0 : Chunk} (v : Chunk) (h : lookup it k = some v0) :
+    lookup (setVal it k v) k = some v := by
+  induction it with
+  | nil => simp [lookup] at h
+  | cons e rest ih =>
+    unfold setVal
+    by_cases he : e.1 = k
+    · simp [he, lookup]
+    · simp only [he, ↓reduceIte]
+      unfold lookup at h ⊢
+      simp only [he, ↓reduceIte] at h ⊢
+      exact ih h
+
+/-- one `Write` of an update-mode writer: chunk `(k,i)` becomes `p` (overwritten if stored, added
+otherwise), nothing else changes, no error -/
+theorem write_update (k : Nat) (t : Tree) (i : Nat) (p : Chunk)
+    (hc : t.cur.isSome ∨ k ≠ 0 ∨ 2 ≤ i) (h0 : i = 0 → ∃ v, lookup t.items ⟨k, 0⟩ = some v) :
+    (Writer.write t ⟨k, i, false⟩ p).2.2 = true ∧
+    (Writer.write t ⟨k, i, false⟩ p).2.1 = ⟨k, i + 1, false⟩ ∧
+    (∀ sk : SKey, lookup (Writer.write t ⟨k, i, false⟩ p).1.items sk = if sk = ⟨k, i⟩ then some p else lookup t.items sk) ∧
+    ((Writer.write t ⟨k, i, false⟩ p).1.cur.isSome ∨ k ≠ 0 ∨ 2 ≤ i + 1) := by
+  have hc' : t.cur.isSome ∨ (⟨k, i⟩ : SKey) ≠ ⟨0, 1⟩ := by
+    rcases hc with h | h | h
+    · exact Or.inl h
+    · exact Or.inr (by rw [Ne, skey_eq_iff]; simp only; exact fun x => h x.1)
+    · exact Or.inr (by rw [Ne, skey_eq_iff]; simp only; omega)
+  obtain ⟨hi, hfound, hnone⟩ := locate_spec t ⟨k, i⟩ hc'
+  unfold Writer.write
+  simp only [Bool.false_eq_true, ↓reduceIte]
+  rcases hloc : locate t ⟨k, i⟩ with ⟨t1, f⟩
+  rw [hloc] at hi hfound hnone
+  simp only at hi hfound hnone ⊢
+  cases hl : lookup t.items ⟨k, i⟩ with
+  | some v =>
+    obtain ⟨hf, hcur⟩ := hfound v hl
+    subst hf
+    have hl1 : lookup t1.items ⟨k, i⟩ = some v := by rw [hi]; exact hl
+    simp only [↓reduceIte, Tree.updateCurrent, hcur, hl1]
+    refine ⟨trivial, trivial, ?_, Or.inl rfl⟩
+    intro sk
+    by_cases hsk : sk = ⟨k, i⟩
+    · subst hsk; simp only [↓reduceIte]; exact lookup_setVal_self _ p hl1
+    · simp only [hsk, ↓reduceIte]; rw [lookup_setVal_ne _ p hsk, hi]
+  | none =>
+    have hf := hnone hl
+    subst hf
+    have hl1 : lookup t1.items ⟨k, i⟩ = none := by rw [hi]; exact hl
+    simp only [Bool.false_eq_true, ↓reduceIte, Tree.add, hl1]
+    refine ⟨trivial, trivial, ?_, ?_⟩
+    · intro sk
+      rw [lookup_insert p sk hl1, hi]
+    · have : i ≠ 0 := by
+        intro h
+        obtain ⟨v, hv⟩ := h0 h
+        rw [h] at hl; rw [hl] at hv; cases hv
+      exact Or.inr (Or.inr (by omega))
+
+theorem writeAll_update (k : Nat) : ∀ (vals : List Chunk) (t : Tree) (i : Nat),
+    (t.cur.isSome ∨ k ≠ 0 ∨ 2 ≤ i) → (i = 0 → ∃ v, lookup t.items ⟨k, 0⟩ = some v) →
+    (writeAll t ⟨k, i, false⟩ vals).2.2 = true ∧
+    (writeAll t ⟨k, i, false⟩ vals).2.1 = ⟨k, i + vals.length, false⟩ ∧
+    (∀ sk : SKey, lookup (writeAll t ⟨k, i, false⟩ vals).1.items sk =
+      if sk.key = k ∧ i ≤ sk.idx ∧ sk.idx < i + vals.length then vals[sk.idx - i]? else lookup t.items sk) := by
+  intro vals
+  induction vals with
+  | nil => intro t i _ _; simp [writeAll]; intro sk _ h1 h2; omega
+  | cons p ps ih =>
+    intro t i hc h0
+    obtain ⟨w1, w2, w3, w4⟩ := write_update k t i p hc h0
+    unfold writeAll
+    rcases hw : Writer.write t ⟨k, i, false⟩ p with ⟨t1, w', ok⟩
+    rw [hw] at w1 w2 w3 w4
+    simp only at w1 w2 w3 w4
+    subst w1; subst w2
+    simp only
+    obtain ⟨a, b, c⟩ := ih t1 (i + 1) w4 (fun h => by omega)
+    refine ⟨a, by rw [b]; simp only [List.length_cons]; congr 1; omega, ?_⟩
+    intro sk
+    rw [c sk, w3 sk]
+    by_cases hk : sk.key = k
+    · by_cases h1 : sk.idx = i
+      · have hsk : sk = ⟨k, i⟩ := by rw [skey_eq_iff]; exact ⟨hk, h1⟩
+        rw [hsk]
+        simp
+        intro h; omega
+      · have hsk : ¬ sk = ⟨k, i⟩ := by rw [skey_eq_iff]; simp only; exact fun x => h1 x.2
+        by_cases h2 : i + 1 ≤ sk.idx ∧ sk.idx < i + 1 + ps.length
+        · have h3 : i ≤ sk.idx ∧ sk.idx < i + (p :: ps).length := by simp only [List.length_cons]; omega
+          simp only [hk, h2, h3, and_self, ↓reduceIte, true_and]
+          have : sk.idx - i = (sk.idx - (i + 1)) + 1 := by omega
+          rw [this, List.getElem?_cons_succ]
+        · have h3 : ¬ (i ≤ sk.idx ∧ sk.idx < i + (p :: ps).length) := by simp only [List.length_cons]; omega
+          simp only [hk, true_and, h2, h3, ↓reduceIte, hsk]
+    · have hsk : ¬ sk = ⟨k, i⟩ := by rw [skey_eq_iff]; simp only; exact fun x => hk x.1
+      simp [hk, hsk]
+
+/-- how many chunks of entry `k` with index `j` or above are stored (what bounds the loop of `Close`) -/
+def tailCount (it : Items) (k j : Nat) : Nat := (it.filter fun e => decide (e.1.key = k ∧ j ≤ e.1.idx)).length
+
+theorem erase_filter_le (it : Items) (sk : SKey) (p : SKey × Chunk → Bool) :
+    ((erase it sk).filter p).length ≤ (it.filter p).length := by
+  induction it with
+  | nil => simp [erase]
+  | cons e rest ih =>
+    unfold erase
+    by_cases he : e.1 = sk
+    · simp only [he, ↓reduceIte, List.filter_cons]
+      split
+      · simp only [List.length_cons]; omega
+      · exact ih
+    · simp only [he, ↓reduceIte, List.filter_cons]
+      by_cases hp : p e = true
+      · simp only [hp, ↓reduceIte, List.length_cons]; omega
+      · simp only [hp, ↓reduceIte]; exact ih
+
+/-- the loop of `Encoder.Close` in update mode: from index `j` on it removes every chunk of the entry
+(stored contiguously up to index `n`), leaves everything else, and the fuel suffices -/
+theorem closeLoop_spec (k n : Nat) : ∀ (fuel : Nat) (t : Tree) (j : Nat),
+    (∀ idx, j ≤ idx → ((∃ v, lookup t.items ⟨k, idx⟩ = some v) ↔ idx < n)) → tailCount t.items k j < fuel →
+    (closeLoop fuel t ⟨k, j, false⟩).2.2 = true ∧
+    ∀ sk : SKey, lookup (closeLoop fuel t ⟨k, j, false⟩).1.items sk =
+      if sk.key = k ∧ j ≤ sk.idx then none else lookup t.items sk := by
+  intro fuel
+  induction fuel with
+  | zero => intro t j _ h; omega
+  | succ f ih =>
+    intro t j hcont hfuel
+    unfold closeLoop
+    simp only
+    unfold Tree.find
+    cases hl : lookup t.items ⟨k, j⟩ with
+    | none =>
+      simp only [Bool.false_eq_true, ↓reduceIte, true_and]
+      intro sk
+      by_cases hc : sk.key = k ∧ j ≤ sk.idx
+      · simp only [hc, and_self, ↓reduceIte]
+        have hsk : sk = ⟨k, sk.idx⟩ := by rw [skey_eq_iff]; exact ⟨hc.1, rfl⟩
+        have hnj : ¬ j < n := by
+          intro h
+          obtain ⟨v, hv⟩ := (hcont j (Nat.le_refl _)).2 h
+          rw [hl] at hv; cases hv
+        cases hs : lookup t.items sk with
+        | none => rfl
+        | some v =>
+          have := (hcont sk.idx hc.2).1 ⟨v, by rw [← hsk]; exact hs⟩
+          omega
+      · simp only [hc, ↓reduceIte]
+    | some v =>
+      simp only [↓reduceIte, Tree.removeCurrent, hl]
+      obtain ⟨e, he, hek⟩ := mem_of_lookup hl
+      have hcont' : ∀ idx, j + 1 ≤ idx →
+          ((∃ v, lookup (erase t.items ⟨k, j⟩) ⟨k, idx⟩ = some v) ↔ idx < n) := by
+        intro idx hidx
+        rw [lookup_erase]
+        have : ¬ (⟨k, idx⟩ : SKey) = ⟨k, j⟩ := by rw [skey_eq_iff]; simp only; omega
+        simp only [this, ↓reduceIte]
+        exact hcont idx (by omega)
+      have hfuel' : tailCount (erase t.items ⟨k, j⟩) k (j + 1) < f := by
+        have h1 := erase_filter_le t.items ⟨k, j⟩ (fun e => decide (e.1.key = k ∧ j + 1 ≤ e.1.idx))
+        have h2 : tailCount t.items k (j + 1) < tailCount t.items k j := by
+          unfold tailCount
+          apply filter_length_lt
+          · intro x hx
+            simp only [decide_eq_true_eq] at hx ⊢
+            omega
+          · refine ⟨e, he, ?_, ?_⟩
+            · simp only [decide_eq_true_eq]; rw [hek]; simp
+            · simp only [decide_eq_false_iff_not]; rw [hek]; simp
+        unfold tailCount at h2 hfuel ⊢
+        omega
+      obtain ⟨a, b⟩ := ih ⟨erase t.items ⟨k, j⟩, none⟩ (j + 1) hcont' hfuel'
+      refine ⟨a, ?_⟩
+      intro sk
+      rw [b sk]
+      simp only
+      rw [lookup_erase]
+      by_cases hk : sk.key = k
+      · by_cases hj : sk.idx = j
+        · have hsk : sk = ⟨k, j⟩ := by rw [skey_eq_iff]; exact ⟨hk, hj⟩
+          rw [hsk]; simp
+        · have hsk : ¬ sk = ⟨k, j⟩ := by rw [skey_eq_iff]; simp only; exact fun x => hj x.2
+          by_cases h1 : j + 1 ≤ sk.idx
+          · have h2 : j ≤ sk.idx := by omega
+            simp [hk, h1, h2]
+          · have h2 : ¬ j ≤ sk.idx := by omega
+            simp [hk, h1, h2, hsk]
+      · have hsk : ¬ sk = ⟨k, j⟩ := by rw [skey_eq_iff]; simp only; exact fun x => hk x.1
+        simp [hk, hsk]
+
+/-- **C31_update_replaces.** `Update(k)` of an existing entry (old content: any non-empty chunk list),
+one `Encode` per new value (any number of values: fewer, as many, or more than before, none included),
+`Close` — from ANY cursor state: no error; afterwards entry `k` consists of exactly the new values'
+chunks, in order (no chunk of the older, longer content is left over, none of the new ones is missing);
+and every chunk of every other entry is as it was. -/
+theorem C31_update_replaces : Statement_C31_update_replaces := by
+  intro t k old vals hold he
+  have h0 : ∃ v, lookup t.items ⟨k, 0⟩ = some v := by
+    cases old with
+    | nil => exact absurd rfl hold
+    | cons c cs => exact ⟨c, by rw [he 0]; rfl⟩
+  obtain ⟨v0, hv0⟩ := h0
+  obtain ⟨a, b, c⟩ := writeAll_update k vals { t with cur := some ⟨k, 0⟩ } 0 (Or.inl rfl) (fun _ => ⟨v0, hv0⟩)
+  unfold opUpdate findOne Tree.find
+  simp only [hv0, ↓reduceIte, Tree.currentKey, Option.getD_some]
+  rcases hw : writeAll { t with cur := some ⟨k, 0⟩ } ⟨k, 0, false⟩ vals with ⟨t1, w1, ok⟩
+  rw [hw] at a b c
+  simp only at a b c
+  subst a; subst b
+  simp only [↓reduceIte, close, Bool.false_eq_true, Nat.zero_add]
+  have hcont : ∀ idx, vals.length ≤ idx → ((∃ v, lookup t1.items ⟨k, idx⟩ = some v) ↔ idx < old.length) := by
+    intro idx hidx
+    rw [c]
+    have hlt : ¬ idx < 0 + vals.length := by omega
+    simp only [hlt, and_false, ↓reduceIte]
+    rw [he idx]
+    constructor
+    · rintro ⟨v, hv⟩
+      rcases List.getElem?_eq_some_iff.1 hv with ⟨h, _⟩; exact h
+    · intro h; exact ⟨old[idx], List.getElem?_eq_getElem h⟩
+  have hfuel : tailCount t1.items k vals.length < fuelOf t1 := by
+    unfold tailCount fuelOf
+    exact Nat.lt_succ_of_le (List.length_filter_le _ _)
+  obtain ⟨d, e⟩ := closeLoop_spec k old.length (fuelOf t1) t1 vals.length hcont hfuel
+  rcases hcl : closeLoop (fuelOf t1) t1 ⟨k, vals.length, false⟩ with ⟨t2, w2, ok2⟩
+  rw [hcl] at d e
+  simp only at d e
+  subst d
+  simp only [↓reduceIte, true_and]
+  constructor
+  · intro i
+    rw [e]
+    simp only [true_and]
+    by_cases hi : vals.length ≤ i
+    · simp only [hi, ↓reduceIte]
+      exact (List.getElem?_eq_none hi).symm
+    · simp only [hi, ↓reduceIte]
+      rw [c]
+      have : k = k ∧ 0 ≤ i ∧ i < 0 + vals.length := by omega
+      simp only [this, and_self, ↓reduceIte, Nat.sub_zero]
+  · intro sk hsk
+    rw [e]
+    have h1 : ¬ (sk.key = k ∧ vals.length ≤ sk.idx) := fun x => hsk x.1
+    simp only [h1, ↓reduceIte]
+    rw [c]
+    have h2 : ¬ (sk.key = k ∧ 0 ≤ sk.idx ∧ sk.idx < 0 + vals.length) := fun x => hsk x.1
+    simp only [h2, ↓reduceIte]
+
+/-- the hypotheses are met by a concrete SHRINKING update (3 chunks replaced by 1), with a neighbour on
+each side and the cursor deselected -/
+example :
+    let t : Tree := ⟨[(⟨1, 0⟩, [9]), (⟨2, 0⟩, [1]), (⟨2, 1⟩, [2]), (⟨2, 2⟩, [3]), (⟨3, 0⟩, [8])], none⟩
+    [[1], [2], [3]] ≠ ([] : List Chunk) ∧ Entry t.items 2 [[1], [2], [3]] := by
+  refine ⟨by simp, ?_⟩
+  intro i
+  match i with
+  | 0 | 1 | 2 => rfl
+  | i + 3 => simp [lookup]
+
+/-- Outside the statement: `Close` is part of the update (it is what removes the old tail). An update-mode
+encoder that is written to but NOT closed leaves the chunks of the older, longer content behind (the
+harness's case `mem upd-unclosed-corpus` shows the real code doing exactly this, and `Close` called
+afterwards repairing it). -/
+theorem C31_update_needs_close :
+    let t : Tree := ⟨[(⟨2, 0⟩, [1]), (⟨2, 1⟩, [2]), (⟨2, 2⟩, [3])], none⟩
+    (writeAll (findOne t 2).1 ⟨2, 0, false⟩ [[7]]).1.items = [(⟨2, 0⟩, [7]), (⟨2, 1⟩, [2]), (⟨2, 2⟩, [3])] ∧
+    (opUpdate t 2 [[7]]).1.items = [(⟨2, 0⟩, [7])] := by
   decide
 
 /-- The pinned tree's reader violates the statement: three 3-byte chunks read through a 2-byte
